@@ -208,9 +208,37 @@ package das
 //@   ensures s.inProgress == old(s.inProgress) && s.failed == old(s.failed) && s.inRetry == old(s.inRetry)
 
 // Every sampling job ends by reporting its outcome unless the DASer itself is stopping.
+// The worker's helpers: fetching a header and sampling it write nothing in the worker; recording an
+// outcome leaves the job description alone, stores the height as current, and counts a failure of
+// that height in the result's failed map.
+//@ func (*worker).getHeader
+//@   property C04
+//@   requires w != nil
+// (the sampler reads the header it is given)
+//@ func (*worker).sample
+//@   property C04
+//@   requires w != nil
+//@   param .sampleFn: ensures true
+//@ func (*worker).setResult
+//@   property C04 C13
+//@   requires w != nil && w.state.result.failed != nil
+//@   modifies w
+//@   modifies w.state.result.failed
+//@   ensures w.state.curr == curr && w.state.result.job == old(w.state.result.job) && w.state.result.failed == old(w.state.result.failed)
+//@   ensures err != nil ==> has(w.state.result.failed, curr) && w.state.result.failed[curr] == old(has(w.state.result.failed, curr) ? w.state.result.failed[curr] : 0) + 1
+//@   ensures forall h uint64 :: h != curr || err == nil ==> has(w.state.result.failed, h) == old(has(w.state.result.failed, h)) && w.state.result.failed[h] == old(w.state.result.failed[h])
+
+// C04: a job is reported only after every height of its range, one by one and in order, was handed to
+// the sampler and its outcome recorded under that height (a height outside the sampling window is
+// skipped alone - the heights after it are newer and may well be inside the window).
 //@ func (*worker).run
-//@   property C13
+//@   property C13 C04
 //@   noframe
-//@   requires !$Sent
+//@   requires !$Sent && w != nil && w.state.result.failed != nil
 //@   ensures $Sent || ctxDone(ctx)
+//@   callpre worker).sample: $arg3 == curr
+//@   callpre worker).setResult: $arg1 == curr
+//@   checks $Sent ==> curr > w.state.result.job.to && (curr == w.state.result.job.to + 1 || curr == w.state.result.job.from)
 //@   loop 1: invariant !$Sent
+//@   loop 1: invariant (curr <= w.state.result.job.to + 1 || curr == w.state.result.job.from) && w.state.result.job == old(w.state.result.job) && w.state.result.failed == old(w.state.result.failed)
+//@   loop 1: backedge curr == head(curr) + 1 || head(curr) == 18446744073709551615
